@@ -8,6 +8,9 @@ CONSTANTS MaxItems = 2
  Budget = 3
  IdOffs <- IdOffs4
  Rules = {"assume", "implies_intr", "implies_elim", "substitution", "theorem", "sorry", "", "subproof", "verif_gap1", "verif_id0"}
+ ArgKinds = {}
+ ArityOffs <- ArityOffs1
+ MaxAlias = 0
  Emit = TRUE
 INVARIANT RefSound
 INVARIANT RefGapFree
